@@ -74,6 +74,36 @@ func c19One(o *out, text string, kind string) {
 			o.fail("", fmt.Sprintf("RequiredPrivileges of %q gives %v the first time and %v the second", text, ps, ps2), rp)
 		}
 	}
+	// ... and when the statement is changed (the NOTE on RequiredPrivileges asks callers to fill in default databases
+	// first), the answer is the answer for the changed statement: asked before and after, or only after, it is the same
+	if pn == nil {
+		fill := func(st influxql.Statement) {
+			influxql.WalkFunc(st, func(n influxql.Node) {
+				if m, ok := n.(*influxql.Measurement); ok && m.Database == "" {
+					m.Database = "filled_in"
+				} else if ok {
+					m.Database = m.Database + "_2"
+				}
+			})
+		}
+		if fresh, err := influxql.ParseStatement(text); err == nil {
+			o.checked()
+			var a, b influxql.ExecutionPrivileges
+			var ea, eb error
+			pn2 := safely(func() {
+				fill(st)
+				a, ea = st.RequiredPrivileges()
+				fill(fresh)
+				b, eb = fresh.RequiredPrivileges()
+			})
+			if pn2 == nil && (privsSexp(a) != privsSexp(b) || (ea == nil) != (eb == nil)) {
+				o.fail("", fmt.Sprintf("after changing the databases of %q, a statement that was asked before answers %v, one that was not answers %v", text, a, b), rp)
+			}
+			if st2, err := influxql.ParseStatement(text); err == nil { // the checks below look at the statement as written
+				st = st2
+			}
+		}
+	}
 	o.checked()
 	if pn != nil {
 		o.fail("", fmt.Sprintf("RequiredPrivileges of %q panics: %v", text, pn), rp)
